@@ -495,9 +495,40 @@ def run(ctx):
               wc.lineno)
     y_walrus = [y for y in yields if any(tr and mentions(t, lambda x: isinstance(x, ast.Name) and x.id == 'NamedExpr') and
                                          mentions(t, lambda x: isinstance(x, ast.Constant) and x.value == 'target') for t, tr in guards(y))]
+    # the other encoding: the decision is taken at the NamedExpr node itself and its `.target` is yielded.  Then the NamedExpr must not be pruned
+    # from the locating walk: its value is evaluated in the same scope and can hold further walruses (`(a := (b := f(x)))`)
+    pruned_at_walrus = None
+    if not y_walrus:
+        tbinds = {}
+        for n_ in walk_no_nested(wc.node):
+            if isinstance(n_, ast.Assign) and len(n_.targets) == 1 and isinstance(n_.targets[0], ast.Name) and \
+                    any(isinstance(x, ast.Attribute) and x.attr == 'target' for x in ast.walk(n_.value)):
+                tbinds.setdefault(n_.targets[0].id, []).append(n_)
+        for y in yields:
+            gs = [(t, tr) for t, tr in guards(y) if tr and mentions(t, lambda x: isinstance(x, ast.Name) and x.id == 'NamedExpr')]
+            if not gs or y.value.id not in tbinds:
+                continue
+            # the arm of the class test that holds the yield
+            cur = y
+            while cur in wpar and not (isinstance(wpar[cur], ast.If) and wpar[cur].test is gs[0][0]):
+                cur = wpar[cur]
+            arm = wpar[cur].body if cur in wpar else []
+            if not any(b in arm for bs in tbinds[y.value.id] for b in [bs]):
+                continue
+            y_walrus.append(y)
+            for st in arm:
+                for x in ast.walk(st):
+                    if isinstance(x, ast.Call) and call_name(x) == 'send' and x.args and isinstance(x.args[0], ast.Constant) and x.args[0].value is False \
+                            and loops and norm(x.func.value) == norm(loops[0].iter):
+                        pruned_at_walrus = x
     ctx.check('R16.1c', bool(y_walrus), wc.module, wc.qualname, 'walrus target test',
               'no yield is control dependent on "parent is a NamedExpr and field is target": walrus targets of a nested comprehension are not handed '
               'to the enclosing scope (PEP 572)', wc.lineno)
+    if pruned_at_walrus is not None:
+        ctx.bad('R16.1c', wc.module, wc.qualname, 'walrus decided at the NamedExpr node and the node pruned',
+                'the target is picked up at the NamedExpr and the locating walk is then told not to descend into it: a walrus inside its value '
+                '(`(a := (b := f(x)))`, a nested comprehension, a lambda default) is evaluated in the same scope and is never handed to the enclosing scope',
+                pruned_at_walrus.lineno)
     # ---- R16.1d the locating walk is not constrained by the caller's filter; the filter is applied to what is yielded -----------------
     ctx.rule('R16.1d', 'walk_Comp locates the first iterable / walrus targets with an unfiltered walk and applies the caller\'s `all` filter only '
                        'to what it yields', 1)
@@ -548,8 +579,10 @@ def run(ctx):
               'NamedExpr targets inside the body of a lambda that sits in a comprehension are handed to the enclosing scope although they bind in the '
               'lambda (symtable: local to the lambda)', wc.lineno)
     unfiltered = not (isinstance(a0, ast.Name) and a0.id in filt_names) and not (a0 is not None and norm(a0) == 'self.all')
+    from .c14 import filter_callable_names
+    filt_callables = filter_callable_names(ctx)
     for y in (y_first + y_walrus) if unfiltered else []:
-        gd = any(tr and mentions(t, lambda x: isinstance(x, ast.Call) and call_name(x) == 'check_all_param') for t, tr in guards(y))
+        gd = any(tr and mentions(t, lambda x: isinstance(x, ast.Call) and call_name(x) in filt_callables) for t, tr in guards(y))
         ctx.check('R16.1d', gd, wc.module, wc.qualname, f'yield {norm(y.value)} @{"first" if y in y_first else "walrus"}',
                   'a located node is yielded without asking the caller\'s filter', y.lineno)
 
